@@ -305,8 +305,17 @@ fn run_scenario(sc: &Scenario) -> Vec<Failure> {
                 if e.period > 0 { c10 = true; }
             }
         }
-        let props = if c09 { "C09,C01" } else if c10 { "C10,C01,C08" } else { "C01,C08" };
-        fails.push(Failure { check: "executes-exactly-the-due-live-actions", props,
+        // a cancelled entry that ran: C09 (and C10's "until it is cancelled" when it is periodic); a periodic one: C10
+        let (check, props) = if c09 && c10 {
+            ("cancelled-periodic-occurrence-executed", "C09,C10,C01")
+        } else if c09 {
+            ("cancelled-action-executed", "C09,C01")
+        } else if c10 {
+            ("periodic-occurrences-exactly-once-each", "C10,C01,C08")
+        } else {
+            ("executes-exactly-the-due-live-actions", "C01,C08")
+        };
+        fails.push(Failure { check, props,
             detail: format!("(series, time) -> expected minus executed: {:?}", diff) });
     }
     // ---- C07: same time + same origin in scheduling order
